@@ -29,7 +29,18 @@ var listenRe = regexp.MustCompile(`listening on '([^']+)'`)
 // modify, delete, compare), basic-auth, API authenticate and refused API requests issue no mutating system call on any path
 // under the sandbox (upgrades off).
 func TestC15FrontendsTrace(t *testing.T) {
-	rapid.Check(t, func(t *rapid.T) {
+	rapid.Check(t, func(t *rapid.T) { agentTraceCase(t, "C15") })
+}
+
+// TestC03AgentConfinement: the same traced agent, driven with user names outside the schema grammar (traversal into a sibling
+// store, aliases, control bytes ...) on every frontend: no path-taking system call under the sandbox leaves
+// <base>, <base>/<name>.user|.admin, <base>/.tmp/*, and none of these names authenticates.
+func TestC03AgentConfinement(t *testing.T) {
+	rapid.Check(t, func(t *rapid.T) { agentTraceCase(t, "C03") })
+}
+
+func agentTraceCase(t *rapid.T, mode string) {
+	{
 		cfg := smallConfig()
 		pre := []preUser{{Name: "root", PW: "rootpw", Admin: true, PID: 1}, {Name: "alice", PW: "alicepw", PID: 2, Aux: []byte("totp: QUJD\n")}}
 		s, err := newSandbox(cfg, pre, true)
@@ -48,6 +59,16 @@ func TestC15FrontendsTrace(t *testing.T) {
 			reqs = append(reqs, req{kind: rapid.SampledFrom([]string{"sasl", "sasl", "basic-auth", "api-authenticate", "ldap-bind", "ldap-search", "ldap-add", "ldap-modify", "ldap-delete", "ldap-compare",
 				"api-add-nosession", "api-remove-garbage-session", "api-update-wrong-oldpw", "api-list-user-token", "api-setadmin-nosession", "api-bad-json"}).Draw(t, "kind"),
 				user: rapid.SampledFrom([]string{"alice", "root", "ghost", "../store/alice"}).Draw(t, "user"), pw: rapid.SampledFrom([]string{"alicepw", "rootpw", "wrong"}).Draw(t, "pw")})
+			if mode == "C03" {
+				reqs[len(reqs)-1].user = rapid.SampledFrom([]string{"../sibling/bob", "./alice", "alice/", "x/../alice", "../store/alice", s.root + "/sibling/bob", "", "..", ".tmp/x", "alice\x00", "-alice", "../decoy"}).Draw(t, "badname")
+				reqs[len(reqs)-1].pw = rapid.SampledFrom([]string{"alicepw", "bobpw", "decoypw"}).Draw(t, "pw2")
+			}
+		}
+		if mode == "C03" {
+			sib := filepath.Join(s.root, "sibling")
+			os.Mkdir(sib, 0o700)
+			writePre(sib, cfg, preUser{Name: "bob", PW: "bobpw", PID: 1})
+			writePre(s.root, cfg, preUser{Name: "decoy", PW: "decoypw", PID: 1})
 		}
 		pidCh := make(chan int, 1)
 		type out struct {
@@ -101,6 +122,7 @@ func TestC15FrontendsTrace(t *testing.T) {
 			return resp.StatusCode
 		}
 		userTok := ""
+		accepted := ""
 		for _, r := range reqs {
 			vlib.Eval()
 			switch r.kind {
@@ -108,14 +130,20 @@ func TestC15FrontendsTrace(t *testing.T) {
 				if c, err := net.DialTimeout("unix", sock, 5*time.Second); err == nil {
 					c.Write(vlib.RefEncode(r.user, r.pw, "", ""))
 					c.SetReadDeadline(time.Now().Add(10 * time.Second))
-					io.ReadAll(c)
+					rep, _ := io.ReadAll(c)
 					c.Close()
+					if mode == "C03" && len(rep) >= 4 && string(rep[2:4]) == "OK" {
+						accepted = fmt.Sprintf("saslauthd accepted the invalid name %q", r.user)
+					}
 				}
 			case "basic-auth":
 				q, _ := http.NewRequest("GET", "http://"+httpAddr+"/basic-auth", nil)
 				q.Header.Set("Authorization", "Basic "+base64.StdEncoding.EncodeToString([]byte(r.user+":"+r.pw)))
 				if resp, err := client.Do(q); err == nil {
 					resp.Body.Close()
+					if mode == "C03" && resp.StatusCode == 200 {
+						accepted = fmt.Sprintf("basic-auth accepted the invalid name %q", r.user)
+					}
 				}
 			case "api-authenticate":
 				b, _ := json.Marshal(map[string]string{"username": r.user, "password": r.pw})
@@ -129,12 +157,17 @@ func TestC15FrontendsTrace(t *testing.T) {
 					if r.user == "alice" && ar.Session != "" {
 						userTok = ar.Session
 					}
+					if mode == "C03" && ar.Session != "" {
+						accepted = fmt.Sprintf("/api/authenticate accepted the invalid name %q", r.user)
+					}
 				}
 			case "ldap-bind", "ldap-search", "ldap-add", "ldap-modify", "ldap-delete", "ldap-compare":
 				if c, err := ldap.DialTimeout("tcp", ldapAddr, 5*time.Second); err == nil {
 					switch r.kind {
 					case "ldap-bind":
-						c.Bind(r.user+"@example.org", r.pw)
+						if err := c.Bind(r.user+"@example.org", r.pw); err == nil && mode == "C03" {
+							accepted = fmt.Sprintf("LDAP bind accepted the invalid name %q", r.user)
+						}
 					case "ldap-search":
 						c.Bind(r.user, r.pw)
 						c.Search(ldap.NewSearchRequest("dc=example,dc=org", ldap.ScopeWholeSubtree, ldap.NeverDerefAliases, 0, 0, false, "(uid=*)", []string{"uid"}, nil))
@@ -192,6 +225,22 @@ func TestC15FrontendsTrace(t *testing.T) {
 		if o.err != nil || o.res == nil || len(o.res.Ops) != 1 {
 			t.Fatalf("VERIF-INFRA tracer: %v", o.err)
 		}
+		if accepted != "" {
+			t.Fatalf("VIOLATION C03: %s", accepted)
+		}
+		if mode == "C03" {
+			for _, ev := range o.res.Ops[0].Events {
+				if ev.Kind != "path" && ev.Kind != "path2" {
+					continue
+				}
+				for _, p := range []string{ev.Path, ev.Path2} {
+					if p != "" && underRoot(s.root, p) && !allowedPath(s.base, p) && p != s.cfgFile {
+						t.Fatalf("VIOLATION C03: serving requests with invalid user names (%v) the agent issued %s on %s, outside <base>/<name>.user|.admin and <base>/.tmp", reqs, ev.Name, strings.TrimPrefix(p, s.root))
+					}
+				}
+			}
+			vlib.Class("agent-traced-with-invalid-names")
+		}
 		for _, ev := range o.res.Ops[0].Events {
 			// the agent removes / creates its own listening socket (outside the sandbox): not a store mutation
 			if !underRoot(s.root, ev.Path) && !(ev.Path2 != "" && underRoot(s.root, ev.Path2)) {
@@ -207,5 +256,5 @@ func TestC15FrontendsTrace(t *testing.T) {
 		vlib.NT("c15fe", fmt.Sprint(reqs))
 		vlib.AddExtra("agent_syscalls_recorded_under_sandbox", int64(len(o.res.Ops[0].Events)))
 		vlib.Sample(map[string]any{"requests": fmt.Sprintf("%v", reqs), "events_under_sandbox": len(o.res.Ops[0].Events)})
-	})
+	}
 }
